@@ -801,6 +801,11 @@ def run_c15(res, tier, rng, binary):
             a_ops += k["a_ops"]
             b_ops += k["b_ops"]
             ks.append(k)
+        # a clean stop (final checkpoint + shutdown, like SyncWAL does on exit) for wide schemas; the narrow ones are
+        # stopped either way (the leftover WAL is then replayed by the next start)
+        clean = any(k["m"]["c"]["n"] > 2 for k in ks) or rng.random() < 0.5
+        if clean:
+            a_ops += [{"op": "checkpoint"}, {"op": "shutdown"}]
         b_ops.append({"op": "rmworld", "x": {"dir": root}})
         cases.append({"id": "A%d" % g, "ops": a_ops})
         cases.append({"id": "B%d" % g, "ops": b_ops})
@@ -818,6 +823,10 @@ def run_c15(res, tier, rng, binary):
         for x in ([] if a_died else oa) + ([] if b_died else ob):
             if isinstance(x, dict) and x.get("driver_error"):
                 raise Undecided("driver error in C15 unit %d: %s" % (g, x))
+        if not b_died and (ob[0].get("panic") or ob[0].get("err")) and not any(dangerous(k["m"]) for k in ks):
+            res.violation("the server did not come up again on the root holding %s: %s" % ([k["key"] for k in ks], str(ob[0].get("panic") or ob[0].get("err"))[:300]),
+                          dict(replay_unit, restart_stack=(ob[0].get("stack") or "")[:1500]))
+            continue
         for k in ks:
             m, c = k["m"], k["m"]["c"]
             kn = m["known"]
